@@ -88,7 +88,7 @@ def _other(ch: core.Chooser) -> dict:
 
 
 def _reach(ch: core.Chooser) -> str:
-    return ch.weighted([(5, "direct"), (2, "nested"), (2, "set_inside")])
+    return ch.weighted([(5, "direct"), (2, "nested"), (2, "set_inside"), (2, "after_failed_history")])
 
 
 def generate(rs: int, tier: str, index: int) -> dict:
@@ -242,7 +242,25 @@ class reach_options:
     def __enter__(self) -> None:
         import numpoly
 
-        if self.how == "direct":
+        if self.how == "after_failed_history":
+            # earlier in the process a block asking for the opposite order was left by an exception and an update naming
+            # an unknown option was refused; neither may leave anything behind. The shipped order is then used as it
+            # is found (nothing selects it); the other three settings are selected directly.
+            try:
+                with numpoly.global_options(sort_graded=not self.g, sort_reverse=not self.r):
+                    raise KeyboardInterrupt("leave the block")
+            except KeyboardInterrupt:
+                pass
+            try:
+                numpoly.set_options(sort_graded=not self.g, sort_reverse=not self.r, no_such_option=1)
+            except KeyError:
+                pass
+            defaults = numpoly.get_options(defaults=True)
+            if (self.g, self.r) == (defaults["sort_graded"], defaults["sort_reverse"]):
+                cms = []
+            else:
+                cms = [numpoly.global_options(sort_graded=self.g, sort_reverse=self.r)]
+        elif self.how == "direct":
             cms = [numpoly.global_options(sort_graded=self.g, sort_reverse=self.r)]
         elif self.how == "nested":
             cms = [numpoly.global_options(sort_graded=not self.g, sort_reverse=not self.r, retain_names=True),
